@@ -63,7 +63,7 @@ func mentions(body *ast.BlockStmt, match func(ast.Expr) bool) (writes, uses []st
 					writes = append(writes, srcOf(a))
 					return false
 				}
-				if innerCall == nil {
+				if innerCall == nil && a.Fun != n {
 					innerCall = a
 				}
 			}
@@ -75,7 +75,7 @@ func mentions(body *ast.BlockStmt, match func(ast.Expr) bool) (writes, uses []st
 		}
 		switch {
 		case innerCall != nil:
-			uses = append(uses, srcOf(innerCall))
+			uses = append(uses, srcOf(innerCall.(*ast.CallExpr).Fun)+"\x00"+srcOf(innerCall))
 		case innerStmt != nil:
 			s := srcOf(innerStmt)
 			if rs, ok := innerStmt.(*ast.RangeStmt); ok {
@@ -90,6 +90,20 @@ func mentions(body *ast.BlockStmt, match func(ast.Expr) bool) (writes, uses []st
 		return false
 	})
 	return
+}
+
+func textOf(s string) string {
+	if i := strings.Index(s, "\x00"); i >= 0 {
+		return s[i+1:]
+	}
+	return s
+}
+
+func calleeOf(s string) string {
+	if i := strings.Index(s, "\x00"); i >= 0 {
+		return s[:i]
+	}
+	return "-"
 }
 
 func genSeedFacts(facts map[string]interface{}) string {
@@ -123,7 +137,7 @@ func genSeedFacts(facts map[string]interface{}) string {
 					writes = append(writes, [2]string{x.Name.Name, s})
 				}
 				for _, s := range u {
-					uses = append(uses, [2]string{x.Name.Name, s})
+					uses = append(uses, [2]string{x.Name.Name, textOf(s)})
 				}
 			}
 		}
@@ -147,6 +161,9 @@ func genSeedFacts(facts map[string]interface{}) string {
 		id, ok := e.(*ast.Ident)
 		return ok && id.Name == pname
 	})
+	for i := range pu {
+		pu[i] = textOf(pu[i])
+	}
 	facts["seed_facts"] = map[string]interface{}{"writes": writes, "uses": uses, "param": pname, "param_writes": pw, "param_uses": pu}
 	pairs := func(xs [][2]string) string {
 		out := make([]string, len(xs))
@@ -170,5 +187,53 @@ func genSeedFacts(facts map[string]interface{}) string {
 	fmt.Fprintf(&b, "/-- writes `dkg.InitDKGInstance` makes to (elements of) the slice it is handed -/\ndef seedParamWrites : List String := %s\n\n", strs(pw))
 	fmt.Fprintf(&b, "/-- every other mention of that parameter there -/\ndef seedParamUses : List String := %s\n\n", strs(pu))
 	b.WriteString("end Dc4bcVerif.Gen.SeedFacts\n")
+	return b.String()
+}
+
+// genSecretUses (Gen/SecretUses.lean): every mention, in packages airgapped and dkg, of what holds a secret the property
+// names - the long-term private key (`secKey`, `GetSecKey()`) and the BLS share (`Share`, `PriShare()`, `DistKeyShare()`):
+// the function it is in and the innermost call (or statement) that consumes it. A secret reaches a result file, a log
+// line or an error text only through one of these.
+func genSecretUses(facts map[string]interface{}) string {
+	names := map[string]bool{"secKey": true, "GetSecKey": true, "Share": true, "PriShare": true, "DistKeyShare": true, "GetDistKeyShare": true, "GetBLSKeyring": true}
+	isSecret := func(e ast.Expr) bool {
+		se, ok := e.(*ast.SelectorExpr)
+		return ok && names[se.Sel.Name]
+	}
+	var rows [][3]string
+	for _, dir := range []string{"airgapped", "dkg"} {
+		pk := loadPkg(dir)
+		for _, f := range pk.files {
+			for _, d := range f.Decls {
+				fd, ok := d.(*ast.FuncDecl)
+				if !ok || fd.Body == nil {
+					continue
+				}
+				w, u := mentions(fd.Body, isSecret)
+				for _, s := range w {
+					rows = append(rows, [3]string{dir + "." + fd.Name.Name, "write", s})
+				}
+				for _, s := range u {
+					rows = append(rows, [3]string{dir + "." + fd.Name.Name, calleeOf(s), textOf(s)})
+				}
+			}
+		}
+	}
+	if len(rows) == 0 {
+		die("airgapped, dkg: no mention of secKey / Share: the secrets are kept under other names")
+	}
+	facts["secret_uses"] = rows
+	var b strings.Builder
+	b.WriteString("-- GENERATED by /verif/translator from /repo airgapped/*.go and dkg/*.go. DO NOT EDIT.\n")
+	b.WriteString("namespace Dc4bcVerif.Gen.SecretUses\n\n")
+	b.WriteString("/-- (package.function, callee of the innermost call | \"write\" | \"-\" for a plain statement, its text) for every mention of secKey, GetSecKey(), Share, PriShare(), DistKeyShare(), GetDistKeyShare(), GetBLSKeyring() -/\ndef secretUses : List (String × String × String) := [\n")
+	for i, r := range rows {
+		sep := ","
+		if i == len(rows)-1 {
+			sep = ""
+		}
+		fmt.Fprintf(&b, "  (%s, %s, %s)%s\n", leanStr(r[0]), leanStr(r[1]), leanStr(r[2]), sep)
+	}
+	b.WriteString("]\n\nend Dc4bcVerif.Gen.SecretUses\n")
 	return b.String()
 }
